@@ -41,7 +41,7 @@ pub fn meta() -> CheckMeta {
             "after an assigning arithmetic operation has been verified to K_ARITH·eps the reference map is re-synchronised to the library's values, so rounding does not accumulate over a history".into(),
         ],
         exhaustive: false,
-        stuck_is_violation: false,
+        stuck_is_violation: true,
     }
 }
 
@@ -271,8 +271,28 @@ fn gen_calc(rng: &mut Rng, complex: bool, deg: usize) -> Calc {
     shape.push_str(decorate(rng, complex, &mut c, DEFAULT_TOL));
     let xs = (0..4).map(|_| rand_point(rng, complex, 2.0)).collect();
     let konst = if rng.chance(0.2) { zero() } else { rand_scalar(rng, complex, -3.0, 3.0) };
-    let ends = [rand_point(rng, complex, 2.0), rand_point(rng, complex, 2.0), rand_point(rng, complex, 2.0)];
-    let tol = if rng.chance(0.8) { None } else { Some(*rng.pick(&[1e-6, 1e-12, 0.0])) };
+    let mut ends = [rand_point(rng, complex, 2.0), rand_point(rng, complex, 2.0), rand_point(rng, complex, 2.0)];
+    if complex && rng.chance(0.12) {
+        // a vertical segment: the three end points share their real part bit for bit
+        ends[1] = C64::new(ends[0].re, ends[1].im);
+        ends[2] = C64::new(ends[0].re, ends[2].im);
+        shape.push_str("+vertical-integration-path");
+    } else if complex && rng.chance(0.06) {
+        // horizontal: equal imaginary parts
+        ends[1] = C64::new(ends[1].re, ends[0].im);
+        ends[2] = C64::new(ends[2].re, ends[0].im);
+        shape.push_str("+horizontal-integration-path");
+    }
+    if rng.chance(0.03) {
+        // the zero polynomial with stored zeros: its antiderivative is the integration constant
+        for v in c.iter_mut() {
+            *v = zero();
+        }
+        shape.push_str("+all-coefficients-exactly-zero");
+    }
+    // (a tolerance of 0.05 or 0.5 is larger than many of the integration intervals: the zero
+    // tolerance concerns coefficients, never the width of an interval)
+    let tol = if rng.chance(0.8) { None } else { Some(*rng.pick(&[1e-6, 1e-12, 0.0, 0.05, 0.5])) };
     Calc { complex, c, tol, from_slice: rng.chance(0.7), xs, konst, ends, shape }
 }
 
